@@ -4,7 +4,7 @@ import math
 from ..core import ok, viol, skip, COUNTERS
 from ..gen import prog as G
 from ..ref import optim
-from .. import sut, judge, instrument
+from .. import sut, judge, instrument, sanitize
 
 ID = "C20"
 LEVEL = "exploration"
@@ -18,15 +18,25 @@ ASSUMPTIONS = ["relevance is goal-directed: options of an AD whose head the evid
                "(this is how the ground program represents them)", "the reported assignment itself is not re-parsed; its probability is the oracle"]
 LEVEL_TEXT = ("Each program is solved by both real MPE implementations (including the external maxsatz process) and the optimum value is "
               "compared with brute-force enumeration; unsatisfiable evidence must be reported as such.")
-LEVEL_NOTE = "Trusts pbmon/ref/optim.py + worlds.py. A sanitizer build of maxsatz is NOT used as a verdict."
-TECHNIQUE = "runtime reference-model monitor (brute-force MPE) for both MPE modes"
+LEVEL_NOTE = ("Trusts pbmon/ref/optim.py + worlds.py. Auxiliary: every maxsatz call of the workload runs an ASan+UBSan build of the bundled "
+              "solver source; any sanitizer report is a violation (none on the unchanged tree).")
+TECHNIQUE = "runtime reference-model monitor (brute-force MPE) for both MPE modes + ASan/UBSan build of the bundled maxsatz solver"
 BUDGET = {"quick": 1500, "thorough": 20000}
 TIME_BUDGET = {"quick": 220, "thorough": 3300}
 CASE_TIMEOUT = 40
 WATCHDOG_FRACTION = 0.04
 
 
+def prepare(scratch, env, tier):
+    sanitize.prepare(scratch, env)
+
+
+def collect(scratch, recs, counters):
+    sanitize.collect(scratch, recs, counters)
+
+
 def setup_worker(tier):
+    sanitize.worker_probe(COUNTERS)
     instrument.reach_install({"mpe.py": ["mpe_maxsat", "mpe_semiring"], "maxsat.py": ["MaxSATSolver.evaluate"]})
 
 
